@@ -51,6 +51,25 @@ def gen_cases(rng, n, maxdepth):
             else:
                 val = IR.gen_sat(rng, mh)
             out.append({'vexps': vs, 'metahint': mh, 'value': val})
+    # IsAttr of one attribute name nested in itself with a sibling operand after it (the temporaries holding the two attribute
+    # values must stay apart), on attribute bags nested the same way
+    def bag(**kw):
+        return ['obj', 'UserA', [[k, v] for k, v in kw.items()]]
+    leafs = [['eq', ['int', 1]], ['eq', ['int', 0]], ['inst', ['UserA']], ['inst', ['int']]]
+    bags = [bag(x=bag(x=['int', 1])), bag(x=bag(y=['int', 0])), bag(x=bag(x=['int', 1], y=['int', 0])), bag(x=['int', 1]), bag(x=['int', 0]),
+            bag(x=bag(x=bag(x=['int', 1]))), bag(y=['int', 1]), bag(x=bag(x=['int', 0], y=['int', 1]))]
+    for _ in range(max(20, n // 6)):
+        a = rng.choice(['x', 'y'])
+        inner = ['attr', a, rng.choice(leafs)]
+        sib = rng.choice(leafs + [['attr', rng.choice(['x', 'y']), rng.choice(leafs)]])
+        body = [rng.choice(['and', 'or']), inner, sib]
+        v = ['attr', a, body]
+        v = rng.choice([v, v, ['not', v], ['or', v, ['eq', ['int', 7]]]])
+        mh = rng.choice([['any', 'object'], ['cls', 'UserA']])
+        for val in rng.sample(bags, 4):
+            if a == 'y':
+                val = json.loads(json.dumps(val).replace('"x"', '"_t"').replace('"y"', '"x"').replace('"_t"', '"y"'))
+            out.append({'vexps': [v], 'metahint': mh, 'value': val})
     return out
 
 
